@@ -49,20 +49,32 @@ class Known:
         return None
 
 
+MEM_LIMIT = int(os.environ.get("VERIF_MEM_GB", "2")) << 30
+
+
 class _Failure(Exception):
     pass
 
 
 def run_case(part, spec, ctx):
     """Run one case. Returns None, or a harness-error string."""
+    out_of_memory = False
     try:
         part.check(spec, ctx)
     except SutError as e:
         ctx.violation("unexpected-exception", "%s/exc/%s" % (part.prop_id, e.bucket), repr(e.exc))
+    except MemoryError:
+        out_of_memory = True  # nothing may be allocated until the frames of check() are released
     except (KeyboardInterrupt, SystemExit):
         raise
     except BaseException:  # harness / oracle bug
         return traceback.format_exc()
+    if out_of_memory:
+        import gc
+
+        gc.collect()
+        ctx.violation("unexpected-exception", "%s/exc/MemoryError" % part.prop_id,
+                      "the operation exhausted the %d GB address-space cap of the worker (runaway allocation in the code under test)" % (MEM_LIMIT >> 30))
     return None
 
 
@@ -157,9 +169,6 @@ def hyp_shard(part, tier, shard, nshards, seed, stats, deadline, known, examples
                 break
         done += n
     stats.done += done
-
-
-MEM_LIMIT = int(os.environ.get("VERIF_MEM_GB", "2")) << 30
 
 
 def run_task(args):
